@@ -57,6 +57,29 @@ func runC18(c *core.Ctx) {
 	t := c.T
 	loop := core.NewLoop(c, 400)
 	epoch := drawEpoch(t)
+	// an extension object that stays alive while the process builds thousands of others (a stamped packet waiting
+	// in a pacer queue): whatever storage the constructors recycle after N uses must not be this object's
+	if t.Chance(1, 150) {
+		capT := epoch.Add(time.Duration(t.Intn(1_000_000_000)))
+		off := time.Duration(int64(t.Intn(1<<40)) - 1<<39)
+		n := []int{130, 260, 1030, 2100, 4200, 8300}[t.Intn(6)]
+		var first, later *time.Duration
+		var firstCap, laterCap time.Time
+		c.Guard("rtp.NewAbsCaptureTimeExtensionWithCaptureClockOffset(retained)", func() {
+			a := rtp.NewAbsCaptureTimeExtensionWithCaptureClockOffset(capT, off)
+			first, firstCap = a.EstimatedCaptureClockOffsetDuration(), a.CaptureTime()
+			for i := 0; i < n; i++ {
+				_ = rtp.NewAbsCaptureTimeExtensionWithCaptureClockOffset(capT.Add(time.Duration(i)), time.Duration(int64(i+1)*7_000_003))
+				_ = rtp.NewAbsSendTimeExtension(capT.Add(time.Duration(i)))
+			}
+			later, laterCap = a.EstimatedCaptureClockOffsetDuration(), a.CaptureTime()
+		})
+		c.Probe("object-retained-across-many-constructions")
+		if first != nil && (later == nil || *later != *first || !laterCap.Equal(firstCap)) {
+			c.Violate("offset", "C18/retained-object-changed-by-later-constructions", "an extension built with offset %d ns reads %v after %d later constructions (it read %d ns right after it was built)", int64(off), later, n, int64(*first))
+			return
+		}
+	}
 	// receiver-side history: one long-lived struct decoded into again and again (half of the runs), and the
 	// value the application kept from the previous packet
 	reuseRx := t.Bool()
